@@ -11,6 +11,8 @@ import SlogModel.Model.Disk
 import SlogModel.Model.Reload
 import SlogModel.Model.Pipe
 import SlogModel.Model.FlushPolicy
+import SlogModel.Model.CfgSer
+import SlogModel.Model.Pool
 import SlogModel.Gen.Facts
 import Driver.Util
 import Driver.XformParse
@@ -61,6 +63,7 @@ structure DState where
   packCfg : Pack.Cfg := { mode := .forward, maxBytes := 0, maxRecords := 0, tag := [] }
   pack : Pack.St := {}
   cfgSchema : Cfg.Schema := { names := [] }
+  pool : Pool.St := { nFields := 0, outputs := 1 }
   xprog : List Xform.Step := []
   xstate : Xform.XState := []
   routeParts : List Route.Part := []
@@ -324,6 +327,33 @@ def handleCfg (st : DState) : List String → DState × String
     | some names => ({ st with cfgSchema := { names := names } }, "ok")
     | none => (st, "bad-op")
   | "file" :: _ => (st, "any")
+  | ["ser", env, hid, mode, flags, rw] =>
+    -- the Fluentd Forward output section: env / hid = comma-separated hex names ("-" = none), flags = three 0/1 digits
+    -- (address given, address splits, maxDuration set), rw = `field:step,step;…` with steps i<hex> / c / u / n
+    let names (t : String) : Option (List Bytes) :=
+      if t == "-" then some [] else (t.splitOn ",").mapM (fun h => if h.startsWith "x" then unhex (h.drop 1).toString else none)
+    let step (t : String) : Option CfgSer.Rw :=
+      if t == "c" then some .copy else if t == "u" then some .unescape else if t == "n" then some .unspecified
+      else if t.startsWith "i" then (unhex (t.drop 1).toString).map .inline else none
+    let entry (t : String) : Option (Bytes × List CfgSer.Rw) :=
+      match t.splitOn ":" with
+      | [f, ch] => do
+        let f ← unhex f
+        let ch ← if ch == "-" then some [] else (ch.splitOn ",").mapM step
+        some (f, ch)
+      | _ => none
+    let rws : Option (List (Bytes × List CfgSer.Rw)) := if rw == "-" then some [] else (rw.splitOn ";").mapM entry
+    match names env, names hid, unhex mode, flags.toList, rws with
+    | some env, some hid, some mode, [a, b, c], some rws =>
+      let o : CfgSer.Out := { env := env, hidden := hid, rewrite := rws, mode := mode, addrGiven := a == '1',
+                              addrSplits := b == '1', maxDurationSet := c == '1' }
+      if CfgSer.verify st.cfgSchema o then
+        match CfgSer.construct st.cfgSchema o with
+        | .ok (some _) => (st, "accept")
+        | .ok none => (st, "accept-but-construct-fails")
+        | .error p => (st, s!"accept-but-construct-panics {p.name}")
+      else (st, "reject")
+    | _, _, _, _, _ => (st, "bad-op")
   | "verify" :: toks =>
     match Drv.parseCfg toks with
     | none => (st, "bad-op")
@@ -590,6 +620,52 @@ def handleClient : List String → String
   | "script" :: _ => "any"
   | _ => "bad-op"
 
+/-! record pool -/
+
+def poolView (r : Pool.Rec) : String :=
+  s!"fields={(r.fields.filter (fun f => !f.isEmpty)).length} raw={r.rawLength} ts={if r.tsSet then 1 else 0} unesc={if r.unescaped then 1 else 0}"
+
+def poolIsClear (r : Pool.Rec) : Bool := r.fields.all (·.isEmpty) && r.rawLength == 0 && !r.tsSet
+
+def handlePool (st : DState) : List String → DState × String
+  | ["init", n, o] =>
+    match n.toNat?, o.toNat? with
+    | some n, some o => ({ st with pool := { nFields := n, outputs := o } }, "ok")
+    | _, _ => (st, "bad-op")
+  | ["new", h, src, big] =>
+    match h.toNat?, (if src == "-" then some none else src.toNat?.map some) with
+    | some h, some src =>
+      match Pool.step st.pool (.new h src (big == "1")) with
+      | some p => ({ st with pool := p }, match Pool.lookup p.live h with | some r => poolView r | none => "internal")
+      | none => (st, "not-enabled")
+    | _, _ => (st, "bad-op")
+  | ["set", h, i, v] =>
+    match h.toNat?, i.toNat?, unhex v with
+    | some h, some i, some v =>
+      match Pool.step st.pool (.set h i v) with
+      | some p => ({ st with pool := p }, "ok")
+      | none => (st, "not-enabled")
+    | _, _, _ => (st, "bad-op")
+  | ["hdr", h, raw, ts, un] =>
+    match h.toNat?, raw.toNat? with
+    | some h, some raw =>
+      match Pool.step st.pool (.hdr h raw (ts == "1") (un == "1")) with
+      | some p => ({ st with pool := p }, "ok")
+      | none => (st, "not-enabled")
+    | _, _ => (st, "bad-op")
+  | ["release", h] =>
+    match h.toNat? with
+    | some h =>
+      match Pool.step st.pool (.release h) with
+      | some p =>
+        let clear := match Pool.lookup p.live h with
+          | some r => poolIsClear r
+          | none => match Pool.lookup p.pool h with | some r => poolIsClear r | none => false
+        ({ st with pool := p }, s!"cleared={if clear then 1 else 0}")
+      | none => (st, "not-enabled")
+    | none => (st, "bad-op")
+  | _ => (st, "bad-op")
+
 def handleFlush : List String → String
   | ["consistent", m, t0, t1, db, da] =>
     match m.toInt?, t0.toInt?, t1.toInt?, db.toInt?, da.toInt? with
@@ -618,6 +694,8 @@ def handle (st : DState) (line : String) : DState × String :=
   | "xform" :: rest => handleXform st rest
   | "cfg" :: rest => handleCfg st rest
   | "client" :: rest => (st, handleClient rest)
+  | "pool" :: rest => handlePool st rest
+  | "poolx" :: _ => (st, "any")   -- the same operations without the pooled record sync.Pool chose: re-issued as `pool …` by the harness
   | "buf" :: rest => handleBuf st rest
   | "bufr" :: _ => (st, "any")   -- racy start (accept right after Start): judged by the harness oracle only
   | "disk" :: rest => handleDisk st rest
